@@ -63,6 +63,10 @@ def _orientations(tier):
                 out.append((z, x, False))
     if tier == "quick":
         out = out[0:48:7] + [out[25]]
+    # an upright antenna (z axis exactly vertical) turned about the vertical: by a quarter turn, a half turn and a generic angle
+    for x in ((0.0, 1.0, 0.0), (-1.0, 0.0, 0.0), (0.6, 0.8, 0.0)):
+        if ((0.0, 0.0, 1.0), x) not in [(o[0], o[1]) for o in out]:
+            out.append(((0.0, 0.0, 1.0), x, True))
     g = _generic_rotations()
     for r in (g if tier != "quick" else g[:1]):
         z = tuple((r @ np.array(BASES[0][0], float)).tolist())
